@@ -70,7 +70,11 @@ register(Contract(
     cases=[Case('default-tol', dict(w=Arr(1), tol=NoneT())), Case('given-tol', dict(w=Arr(1), tol=Real()))],
     ensures={
         # returns False iff some |w_i| < tol (not strictly definite), True otherwise
-        'definiteness-flag': lambda a, r: r == z3.Not(TH.anyT(TH.cmps('lt')(TH.absT(a.w.term), sdp_tol(a)))),
+        # C20 "learners that require a strictly PD prior reject a singular one": a spectrum with an exactly zero
+        # eigenvalue is never reported as definite (whatever the tolerance, including the default tolerance of an all-zero spectrum)
+        'true-only-if-no-eigenvalue-is-zero': lambda a, r: z3.Implies(z3.And(r, TH.lenT(a.w.term) == a.w.dim(0)),
+                                                                      z3.Not(TH.anyT(TH.cmps('eq')(a.w.term, z3.RealVal(0))))),
+        'false-only-if-some-eigenvalue-is-within-tol': lambda a, r: z3.Implies(z3.Not(r), TH.anyT(TH.cmps('le')(TH.absT(a.w.term), sdp_tol(a)))),
     },
     raises={'ValueError': Iff(lambda a: z3.BoolVal(False) if a.tol is None else a.tol < 0),
             'NonPSDError': Iff(lambda a: z3.And(sdp_tol(a) >= 0, TH.anyT(TH.cmps('lt')(a.w.term, -sdp_tol(a)))))},
@@ -123,7 +127,8 @@ def imm_cases():
               continue
             out.append(Case('%s-in%dd-%s-%s-%s' % (iname, rank, rs, 'inv' if inv else 'noinv', 'strict' if strict else 'lax'),
                             dict(input=Arr(rank, dims=(['n', 'd'] if rank == 2 else ['n', 't', 'd'])), init=ispec, random_state=rspec,
-                                 return_inverse=Const(VBool(inv)), strict_pd=Const(VBool(strict)), matrix_name=Opaque('matrix_name'))))
+                                 return_inverse=Const(VBool(inv)), strict_pd=Const(VBool(strict)), matrix_name=Opaque('matrix_name')),
+                            never_returns=(iname == 'badstring')))
   return out
 
 
@@ -194,7 +199,8 @@ def ic_cases():
         out.append(Case('%s-%s-%s' % (iname, 'classes' if hc else 'regression', rs),
                         dict(n_components=Int(1), input=Arr(2, dims=['n', 'd']), y=Arr(1, 'i' if hc else 'f', dims=['n']), init=ispec,
                              verbose=Const(VBool(False)), random_state=rspec, has_classes=Const(VBool(hc))),
-                        pre=lambda a: a.n_components <= a.input.dim(1)))
+                        pre=lambda a: a.n_components <= a.input.dim(1),
+                        never_returns=(iname == 'badstring' or (iname == 'lda' and not hc))))
   return out
 
 
